@@ -9,11 +9,12 @@ from wclib import Model, enc, dec
 
 class SpecWalker:
     def __init__(self, root, dot=False, globstar=True, globstarlong=False, follow=False, scandotdir=False, matchbase=False,
-                 nodir=False):
+                 nodir=False, icase=False):
         self.root = root
         self.dot, self.gs, self.gl, self.follow = dot, globstar or globstarlong, globstarlong, follow and not globstarlong
         self.follow_flag = follow
         self.scandotdir, self.matchbase, self.nodir = scandotdir, matchbase, nodir
+        self.icase = icase
         self.model = Model()
         self.cache = {}
         self.listed = set()
@@ -48,8 +49,8 @@ class SpecWalker:
                 # `.` and `..` are protected even with DOTGLOB
                 plain = [n for n in need if n not in ('.', '..')]
                 special = [n for n in need if n in ('.', '..')]
-                reqs.append('den %d 0 %d %s %s' % (lb, int(self.dot), seg_ast, ','.join(enc(n) for n in plain) or '[]'))
-                reqs.append('den %d 0 0 %s %s' % (lb, seg_ast, ','.join(enc(n) for n in special) or '[]'))
+                reqs.append('den %d %d %d %s %s' % (lb, int(self.icase), int(self.dot), seg_ast, ','.join(enc(n) for n in plain) or '[]'))
+                reqs.append('den %d %d 0 %s %s' % (lb, int(self.icase), seg_ast, ','.join(enc(n) for n in special) or '[]'))
             outs = self.model.run(reqs)
             plain = [n for n in need if n not in ('.', '..')]
             special = [n for n in need if n in ('.', '..')]
@@ -110,10 +111,15 @@ class SpecWalker:
         need_dir = bool(rest) or trail
         lit = self.literal_text(seg)
         if lit is not None:
-            child = (cur + '/' + lit) if cur else lit
-            if self.lexists(child) and (not need_dir or self.isdir(child)):
-                for x in self.walk(child, rest, trail, bound):
-                    yield x
+            if self.icase and lit not in ('.', '..'):
+                cands = [n for n in self.listdir(cur) if n.lower() == lit.lower()]
+            else:
+                cands = [lit]
+            for nm in cands:
+                child = (cur + '/' + nm) if cur else nm
+                if self.lexists(child) and (not need_dir or self.isdir(child)):
+                    for x in self.walk(child, rest, trail, bound):
+                        yield x
             return
         names = self.listdir(cur)
         cand = list(names) + (['.', '..'] if self.scandotdir else [])
